@@ -186,6 +186,7 @@ theorem stuck_shape (s : St) (hc : CInv s) (he : EInv s) (hs : stuck true s = tr
   have b2 := stuck_lbl hs (l := .hbChk) (by simp [internalLbls])
   have b3 := stuck_lbl hs (l := .hbSnd) (by simp [internalLbls])
   have b4 := stuck_lbl hs (l := .hbExit) (by simp [internalLbls])
+  have b5 := stuck_lbl hs (l := .hbUnblk) (by simp [internalLbls])
   have r6 : s.connCloses = 0 ∨ fire true s (.rdTake .rerr) = none := by
     simp only [stuck, Bool.and_eq_true, Bool.or_eq_true] at hs
     rcases hs.2 with h | h
@@ -196,7 +197,7 @@ theorem stuck_shape (s : St) (hc : CInv s) (he : EInv s) (hs : stuck true s = tr
   obtain ⟨e1, e2, e3⟩ := he
   simp only at p1 p2 p3 p4 p5 p6 h1 h2 h3 h4 h5 e1 e2 e3
   subst p1 p2 p3 p4 p5 p6
-  simp only [fire, rdExit] at r1 r2 r3 r4 r5 r6 w1 w2 w3 w4 b1 b2 b3 b4
+  simp only [fire, rdExit] at r1 r2 r3 r4 r5 r6 w1 w2 w3 w4 b1 b2 b3 b4 b5
   simp only [OpenIdle, AllDone]
   refine ⟨?_, by simp, by simp⟩
   -- reader: wait (open conn) or done
@@ -224,21 +225,28 @@ theorem stuck_shape (s : St) (hc : CInv s) (he : EInv s) (hs : stuck true s = tr
     | inw => simp at w3
     | dfr => simp at w4
     | done => right; rfl
-  have hhb : (hb = .sel ∧ now < tickAt ∧ closed = false) ∨ hb = .done := by
+  have hhb : (hb = .sel ∧ now < tickAt ∧ closed = false) ∨ hb = .done ∨ (sendCap ≤ sendq ∧ closed = false) := by
     cases hb with
     | sel => simp at b1 b4; left; exact ⟨rfl, by omega, by simpa using b4⟩
     | chk => simp at b2; split at b2 <;> simp at b2
-    | snd => simp at b3; split at b3 <;> simp at b3
-    | done => right; rfl
+    | snd => simp at b3; (repeat' split at b3) <;> simp at b3
+    | blk =>
+      simp at b5
+      right; right
+      cases closed with
+      | true => simp at b5
+      | false => simp at b5; exact ⟨b5, rfl⟩
+    | done => right; left; rfl
   cases closed with
   | false =>
     left
     simp at h2
     rcases hrd with ⟨hr, _⟩ | hr
     · rcases hwr with ⟨hw, hq, _⟩ | hw
-      · rcases hhb with ⟨hh, ht, _⟩ | hh
+      · rcases hhb with ⟨hh, ht, _⟩ | hh | ⟨hfull, _⟩
         · exact ⟨rfl, h2, hr, hw, hq, hh, ht⟩
         · simp [hh] at e3
+        · simp [sendCap, hq] at hfull
       · simp [hw] at e2; omega
     · simp [hr] at e1; omega
   | true =>
@@ -248,9 +256,10 @@ theorem stuck_shape (s : St) (hc : CInv s) (he : EInv s) (hs : stuck true s = tr
     · omega
     · rcases hwr with ⟨_, _, hx⟩ | hw
       · cases hx
-      · rcases hhb with ⟨_, _, hx⟩ | hh
+      · rcases hhb with ⟨_, _, hx⟩ | hh | ⟨_, hx⟩
         · cases hx
         · exact ⟨rfl, h2, by omega, hr, hw, hh⟩
+        · cases hx
 
 /-! ### along a whole schedule -/
 
